@@ -122,6 +122,15 @@ class BaseNestedSampler(ABC):
                 datetime.datetime.now() - self.sampling_start_time
             )
 
+    def update_sampling_time(self):
+        """Add the time since the sampling start time to the sampling time.
+
+        Also resets the sampling start time.
+        """
+        now = datetime.datetime.now()
+        self.sampling_time += now - self.sampling_start_time
+        self.sampling_start_time = now
+
     @property
     def likelihood_evaluation_time(self):
         """Current log-likelihood time"""
